@@ -23,6 +23,7 @@ func checkC11(c *Ctx) {
 	c.Rule("C11/R4", "the exact method is used exactly when both sizes are within the limit that applies (the tie limit when ties were seen, the plain limit otherwise); ties are flagged whenever a rank group has more than one member, in either sample, and the tie vector always reaches the exact distribution")
 	c.Rule("C11/R5", "every p-value the test can return lies in [0,1] by construction (interval evaluation with CDF values in [0,1] and min(x,1-x) <= 1/2)")
 	c.Rule("C11/R7", "exact distribution code: every integer quotient in the tie-aware counting code has a dividend tested non-negative (truncating division is the floor only then); the untied mass function reads p(k)[k] for k = floor(U) or its mirror image n1n2 - floor(U)")
+	c.Rule("C11/R11", "the legacy wrapper leaves the sample-size decision to the test: benchstat.UTest returns nothing before it has called MannWhitneyUTest (one value against several has an exact p-value)")
 	c.Rule("C11/R10", "the legacy wrapper tests the samples it reports (same rule as C17/R8): nothing on the way from benchstat.UTest/TTest reads the unfiltered Values")
 	c.Rule("C11/R8", "binomial coefficients are exact where they are integers: the int64 product in mathChoose is guarded by n <= 20; C(n,k) is 0 outside 0 <= k <= n and 1 at k = 0 and k = n (constant evaluation of eleven boundary arguments)")
 	c.Rule("C11/R9", "exact-distribution code hygiene: no min/max over one and the same operand (a size normalisation that forgets one of the two sizes), and no recurrence over a table of integers (arrangement counts exceed 2^64 well inside the exact limits; the tables hold float64 probabilities or counts)")
@@ -43,6 +44,7 @@ func checkC11(c *Ctx) {
 	c11Dist(c, p)
 	c11Hygiene(c, p)
 	c.Under("C17/R8", "C11/R10", func() { c17Retained(c, p) })
+	c11WrapperCallsFirst(c, p)
 }
 
 func c11Guards(c *Ctx, p *Prog, fn *ssa.Function) {
